@@ -917,7 +917,9 @@ func trailingWhitespaceSize(context *layoutContext, box Box) pr.Float {
 			oldBox, resume, _, _ = splitTextBox(context, textBox, nil, resume, true)
 		}
 		if oldBox == nil {
-			panic("oldBox can't be nil")
+			// the last line is empty (e.g. the text ends with a preserved
+			// line break followed by characters rendering nothing)
+			return 0
 		}
 		strippedBox := textBox.CopyWithText(strippedText)
 		strippedBox, resume, _, _ = splitTextBox(context, strippedBox, nil, oldResume, true)
